@@ -137,6 +137,7 @@ def run(chk: Check) -> None:
     run_memo_keys(chk, ix)
     run_error_kinds(chk, ix)
     run_uninit(chk, ix)
+    run_borrow_chain(chk, ix)
     base = ix.cls(OP)
     ops = [c for c in base.all_subclasses() if c.module.name == "mypyc.ir.ops" and "sources" in c.methods and not any(isinstance(n, ast.Raise) for n in c.methods["sources"].node.body)]
     if len(ops) < 35:
@@ -450,3 +451,69 @@ def run_uninit(chk: Check, ix) -> None:
         r7.ok("the failing branch raises UNBOUND_LOCAL_ERROR and ends in Unreachable", f.loc())
     else:
         r7.violation("the failing branch raises UNBOUND_LOCAL_ERROR and ends in Unreachable", f.loc(), "the error block of the definedness check no longer raises UnboundLocalError / is not terminated")
+
+
+def borrow_steps(f) -> dict[str, tuple[str, ast.AST]]:
+    """{OpKind: (operand attr, node)} for the arms `isinstance(v, K) and v.is_borrowed` of f that
+    continue the walk at an operand of v (`v = v.attr` or a recursive call on `v.attr`)."""
+    params = {a.arg for a in f.node.args.args}
+    out: dict[str, tuple[str, ast.AST]] = {}
+    for n in ast.walk(f.node):
+        if not isinstance(n, (ast.If, ast.While)):
+            continue
+        t = n.test
+        conj = t.values if isinstance(t, ast.BoolOp) and isinstance(t.op, ast.And) else [t]
+        var = None
+        kinds: list[str] = []
+        borrowed = False
+        for c in conj:
+            if isinstance(c, ast.Call) and call_name(c) == "isinstance" and len(c.args) == 2 and isinstance(c.args[0], ast.Name):
+                var = c.args[0].id
+                k = c.args[1]
+                kinds = [norm(e) for e in (k.elts if isinstance(k, ast.Tuple) else [k])]
+            elif isinstance(c, ast.Attribute) and c.attr == "is_borrowed" and isinstance(c.value, ast.Name):
+                borrowed = True
+        if var is None or var not in params or not borrowed or not kinds:
+            continue
+        step = None
+        for st in n.body:
+            for x in ast.walk(st):
+                if isinstance(x, ast.Assign) and len(x.targets) == 1 and norm(x.targets[0]) == var and isinstance(x.value, ast.Attribute) and norm(x.value.value) == var:
+                    step = x.value.attr
+                elif isinstance(x, ast.Call) and call_name(x) == f.name:
+                    for a in x.args:
+                        if isinstance(a, ast.Attribute) and norm(a.value) == var:
+                            step = a.attr
+        if step is not None:
+            for k in kinds:
+                out[k] = (step, n)
+    return out
+
+
+def run_borrow_chain(chk: Check, ix) -> None:
+    r8 = chk.rule("R06.8", "the two walks over a chain of borrowed values agree: every op kind through which value_borrow_scope propagates the lifetime constraint of a borrowed value to its operand (a borrowed GetAttr reads from .obj, a borrowed Cast is its .src) is also stepped through by IRBuilder.root_is_reassigned when it looks for the local variable that keeps the chain alive, at the same operand, and that operand is one sources() lists; a kind one walk passes through and the other stops at lets `(x := other)` free the object a whole-expression borrow still points into", floor=5)
+    scope_f = ix.func("mypyc.irbuild.expression.value_borrow_scope")
+    root_f = ix.func("mypyc.irbuild.builder.IRBuilder.root_is_reassigned")
+    a, b = borrow_steps(scope_f), borrow_steps(root_f)
+    if not a or not b:
+        raise AnalysisError(f"borrow-chain walks not recognised (value_borrow_scope: {sorted(a)}, root_is_reassigned: {sorted(b)})")
+    r8.ok(f"value_borrow_scope passes through {sorted(a)}", scope_f.loc())
+    r8.ok(f"root_is_reassigned passes through {sorted(b)}", root_f.loc())
+    for k in sorted(set(a) | set(b)):
+        key = f"borrowed {k} is stepped through by both walks at the same operand"
+        if k in a and k in b and a[k][0] == b[k][0]:
+            r8.ok(key, root_f.loc(b[k][1]))
+        elif k not in b:
+            r8.violation(key, root_f.loc(), f"value_borrow_scope continues at {k}.{a[k][0]} ({scope_f.loc(a[k][1])}) but root_is_reassigned stops at a borrowed {k}: a chain `<cast>(x).attr` never reaches the register of x, so a walrus rebinding of x in the same expression is not seen and the borrowed attribute outlives its owner")
+        elif k not in a:
+            r8.violation(key, scope_f.loc(), f"root_is_reassigned continues at {k}.{b[k][0]} but value_borrow_scope treats a borrowed {k} as unconstrained (scope 999): the lifetime limit of the value it was taken from is lost")
+        else:
+            r8.violation(key, root_f.loc(b[k][1]), f"the walks continue at different operands ({a[k][0]} vs {b[k][0]})")
+    for k in sorted(set(a) & set(b)):
+        c = ix.classes.get(f"mypyc.ir.ops.{k}")
+        sa_ = sources_attrs(c.methods["sources"]) if c is not None and "sources" in c.methods else None
+        key = f"{k}.{b[k][0]} is an operand listed by {k}.sources()"
+        if sa_ is not None and any(at == b[k][0] for at, _ in sa_):
+            r8.ok(key, c.methods["sources"].loc())
+        else:
+            r8.violation(key, root_f.loc(b[k][1]), f"sources() of {k} gives {sa_}")
